@@ -112,6 +112,12 @@ def cmd_run(sid, checks=None, tier='quick'):
         if not ok:
             print(sid, 'patch does not apply:', msg[-300:])
             return
+        # a patch written against an older commit may "apply" with fuzz in the wrong place: it must at least still compile
+        cp = subprocess.run([PY, '-m', 'compileall', '-q', os.path.join(tree, 'klepto')], capture_output=True, text=True,
+                            env=dict(os.environ, PYTHONDONTWRITEBYTECODE='', PYTHONPYCACHEPREFIX=os.path.join(tree, '.pyc')))
+        if cp.returncode != 0:
+            print(sid, 'STALE: the patch no longer applies to the current lines (the patched tree does not compile):', (cp.stdout + cp.stderr)[-200:].replace('\n', ' '))
+            return
         for c in checks:
             # evidence of a run on a scratch copy does not belong in /verif/evidence
             env = dict(os.environ, VERIF_REPO=tree, VERIF_REPLAYS=os.path.join(tree, '.replays'),
